@@ -378,12 +378,17 @@ def cls_sig(target):
             "nsup": len(s["params"]), "self": s["self"], "result": s["result"], "resback": "id"}
 
 
+_OBJ = {}
+
+
 def norm_vals(vals):
-    """Event values -> (target, [[t, [ints]]...])"""
+    """Event values -> (target, [[t, [ints]]...]); object addresses become small ids in order of appearance"""
     target = ""
     out = []
     for x in vals:
         t, v = x["t"], x["v"]
+        if t == "o":
+            v = 0 if v == 0 else _OBJ.setdefault(v, len(_OBJ) + 1)
         if t == "target":
             target = v
             continue
@@ -406,6 +411,7 @@ def cut_calls(events):
     calls = []
     cur = None
     depth = 0
+    _OBJ.clear()
     for e in events:
         if e["ev"] == "Note":
             continue
